@@ -47,6 +47,8 @@ def _validate(ctx, behs, tag, drift=True):
         beh = behs[bi] if 0 <= bi < len(behs) else None
         ev = rows[line - 1] if line - 1 < len(rows) else {}
         sig = "%s@%s:%s" % (kind, ev.get("kind"), "signed" if ev.get("who") in ("A", "B") else ev.get("who"))
+        if kind == "invariant:AsksRequestEpoch":
+            sig = "invariant:AsksRequestEpoch@epoch-%s" % ev.get("ep")   # independent of the corruption kind
         return {"sig": sig, "beh": beh, "line": off, "event": ev, "kind": kind}
     if drift:
         res2 = vlib.tlc_trace(ctx, "Trace_ProviderVerify", "Trace_ProviderVerify.cfg", tpath, env={"VERIF_CONF": "1"}, tag=tag + "_conf")
